@@ -61,6 +61,9 @@ pub enum Marking {
     Inactive,
     /// not in the running configuration at all
     Absent,
+    /// annotated and active, but the operator has given it further content next to the default
+    /// reject (shape code of `Body::RejectPlus`): not managed any more
+    TakenOver(u8),
 }
 
 #[derive(Debug, Clone, PartialEq, Eq, Serialize, Deserialize)]
@@ -216,6 +219,10 @@ pub fn check_history(h: &History, which: Which, obs: &mut Obs) {
                     ..Stmt::managed(name, &expr_for(i))
                 },
                 Marking::Absent => continue,
+                Marking::TakenOver(k) => Stmt {
+                    body: crate::running::Body::RejectPlus { inside_then: k & 1 == 0, before: k & 2 != 0, shape: k >> 2 },
+                    ..Stmt::managed(name, &expr_for(i))
+                },
             };
             stmts.push(stmt);
         }
@@ -349,6 +356,7 @@ pub fn check_history(h: &History, which: Which, obs: &mut Obs) {
                 (None, true, true) => "skipped-failed(not-installed)",
                 (Some(_), false, _) => match p.marking {
                     Marking::MalformedAnnotation(_) => "installed,annotation-malformed",
+                    Marking::TakenOver(_) => "delete-taken-over(other-content)",
                     _ => "delete-unmanaged",
                 },
                 (None, false, _) => "not-managed,not-installed",
@@ -817,6 +825,7 @@ fn policy_in() -> impl Strategy<Value = PolicyIn> {
             1 => Just(Marking::Unmanaged),
             1 => Just(Marking::Inactive),
             2 => Just(Marking::Absent),
+            1 => (0u8..20).prop_map(Marking::TakenOver),
         ],
         prop::bool::weighted(0.15),
         prop_oneof![2 => Just(0u16), 1 => Just(1u16), 6 => any::<u16>().prop_map(|m| m & 0xfff), 2 => any::<u16>().prop_map(|m| m & 0x7)],
@@ -943,6 +952,7 @@ pub fn property_c02() -> Property {
         parts: vec![
             Box::new(PropPart(C02Plan)),
             Box::new(PropPart(crate::props::c04::C02Writes)),
+            Box::new(PropPart(crate::props::c04::C02Run)),
         ],
     }
 }
